@@ -74,6 +74,24 @@ def _install_cleanup():
             pass
 
 
+def tree_fingerprint():
+    """(path, size, mtime) digest of everything the three libraries are compiled from"""
+    import hashlib
+    h = hashlib.sha1()
+    roots = [os.path.join(common.REPO, 'Cargo.toml'), os.path.join(common.REPO, 'Cargo.lock')]
+    for lib in ORDER:
+        roots += [os.path.join(common.REPO, lib, 'Cargo.toml'), os.path.join(common.REPO, lib, 'src')]
+    for r in roots:
+        files = [r] if not os.path.isdir(r) else sorted(os.path.join(d, f) for d, _, fs in os.walk(r) for f in fs)
+        for p in files:
+            try:
+                st = os.stat(p)
+                h.update(f'{p}\0{st.st_size}\0{st.st_mtime_ns}\n'.encode())
+            except OSError:
+                h.update(f'{p}\0missing\n'.encode())
+    return h.hexdigest()
+
+
 # ------------------------------------------------------------------------------------------------
 # configuration enumeration
 
@@ -614,18 +632,11 @@ def run(tier, replay=None):
         tasks.append(t)
     dtasks = [Task('driver', None, f, name=n) for n, f in driver_configs(tier)]
 
-    # the vectors are produced while the compilers run
-    vec_box = {}
+    # the vectors first (multiprocessing must not fork while the worker threads run)
+    from monitors import vecs as V
+    corpus, sv, vectors, vstats = V.build(tier, k=2 if tier == 'quick' else 3)
 
-    def make_vectors():
-        try:
-            from monitors import vecs as V
-            vec_box['v'] = V.build(tier, k=2 if tier == 'quick' else 3)
-        except BaseException as e:
-            vec_box['err'] = e
-    vt = threading.Thread(target=make_vectors, daemon=True)
-    vt.start()
-
+    fp0 = tree_fingerprint()
     nworkers = max(2, min(16, common.NCPU))
     t0 = time.time()
     run_pool(dtasks + tasks, nworkers)
@@ -635,18 +646,24 @@ def run(tier, replay=None):
         for t in again:
             t.retried = True
         run_pool(again, 2)
+    moved = tree_fingerprint() != fp0
+    if moved:
+        # somebody edited the libraries while they were being compiled: failures may be half-written states
+        again = [t for t in tasks if t.cls == 'compile'][:40]
+        for t in again:
+            t.retried = True
+        run_pool(again, min(nworkers, 8))
+        chk.inconclusive.append('the sources of the libraries changed while the configurations were being built; '
+                                'the builds refer to different states of the tree (behaviour comparison skipped). Run again on a quiet tree')
     build_wall = time.time() - t0
     judge_builds(chk, tasks, feats_of)
-    judge_driver_builds(chk, dtasks)
-
-    vt.join()
-    if 'err' in vec_box:
-        e = vec_box['err']
-        if isinstance(e, common.Inconclusive):
-            raise e
-        raise common.Inconclusive('vector generation failed: ' + repr(e))
-    corpus, sv, vectors, vstats = vec_box['v']
-    bstats = run_behaviour(chk, vectors, dtasks)
+    if moved:
+        bstats = {'configs': [], 'lines': 0, 'skipped': 'tree changed during the run'}
+    else:
+        judge_driver_builds(chk, dtasks)
+        bstats = run_behaviour(chk, vectors, dtasks)
+        if tree_fingerprint() != fp0:
+            chk.inconclusive.append('the sources of the libraries changed during the run')
 
     per_lib = {}
     for lib in ORDER:
